@@ -464,6 +464,7 @@ def loopback_ip(k=7):
 
 
 HALF_CLOSE = "half-close"        # a reply value: the device ends its sending direction and keeps reading
+ABORT = "abort"                  # a reply value: the device aborts the connection (a reboot, a watchdog): the client's next read fails with a reset
 
 
 class FakeDevice:
@@ -486,6 +487,9 @@ class FakeDevice:
                 elif self.policy: reply = self.policy(n, d)
                 else: reply = b"\x01"
                 if reply is None: continue
+                if reply is ABORT:
+                    import socket as _s, struct as _st
+                    w.get_extra_info("socket").setsockopt(_s.SOL_SOCKET, _s.SO_LINGER, _st.pack("ii", 1, 0)); break
                 if reply is HALF_CLOSE:
                     if w.can_write_eof(): w.write_eof()
                     half = True; continue
@@ -608,7 +612,7 @@ def scribble(obj):
         except Exception: pass
 
 
-async def feed_bridge(n_ports, events, raising=(), show=None, sentinel=None, serial=False, restarts=0, ports=None, during_start=None, occupy=None):
+async def feed_bridge(n_ports, events, raising=(), show=None, sentinel=None, serial=False, restarts=0, ports=None, during_start=None, occupy=None, clock_steps=None):
     """events: [(port index, datagram bytes)] sent in order from one socket in paced bursts, then one sentinel per port as
     delivery barrier.  Returns (callback log [rendered device], loop-exception-handler calls, warnings).
     `raising`: indices of callback invocations (global count) on which the user's callback raises."""
@@ -664,6 +668,7 @@ async def feed_bridge(n_ports, events, raising=(), show=None, sentinel=None, ser
                 for _ in range(5): await asyncio.sleep(0.001)
                 await bridge.start()
             for i, (p, d) in enumerate(events):
+                if clock_steps is not None: clock_steps[0].shift(clock_steps[1][i % len(clock_steps[1])])      # the wall clock steps (also backwards: DST, NTP) between broadcasts
                 tx.sendto(d, ("127.0.0.1", ports[p]))
                 if serial:                      # nothing else in flight: let the loop take this datagram before the next is sent
                     for _ in range(4): await asyncio.sleep(0.001)
